@@ -441,7 +441,8 @@ def binding_run(carve):
             seen_shapes = set()
             for sig in c12.sig_universe(op):
                 shape = tuple((types.is_const(p), type(types.without_const(p)).__name__) for p in sig)
-                if shape in seen_shapes or len(seen_shapes) >= 6:
+                has_const = any(c for c, _ in shape)
+                if shape in seen_shapes or (not has_const and sum(1 for sh in seen_shapes if not any(c for c, _ in sh)) >= 4) or (has_const and sum(1 for sh in seen_shapes if any(c for c, _ in sh)) >= 8):
                     continue
                 args = c12.mk_args(t, sig)
                 if args is None or (len(args) > 0 and not isinstance(args[0], CE.ColExpr) and op.generate_expr_method):
@@ -539,7 +540,7 @@ def obligations(tier):
                         )
                     )
     obs.append(Obligation("C03/B/method_binding", "B", "methods, accessors, reflected operators and free functions are bound to their operators with the arguments in order", binding_run,
-                          functions=[H.fn_info(H.col_expr_mod.ColFn.__init__)], bounded="up to 6 argument shapes per operator (every operator of the registry); the bound method is a straight-line constructor call"))
+                          functions=[H.fn_info(H.col_expr_mod.ColFn.__init__)], bounded="up to 4 column-only and 8 literal-carrying argument shapes per operator (every operator of the registry); the bound method is a straight-line constructor call"))
     from pydiverse.common import Float64, Int64, String
 
     case_fns = {
